@@ -571,6 +571,9 @@ func (g *amGen) scalar(profile string) *amType {
 		}
 		if g.rng.Chance(defaultP) {
 			t.Default = "dflt"
+			if g.rng.Chance(0.25) && t.MinLen <= 0 {
+				t.Default = "" // falsy defaults are still defaults
+			}
 			g.tag("default:string")
 		}
 	case r < 40:
@@ -598,6 +601,9 @@ func (g *amGen) scalar(profile string) *amType {
 		}
 		if g.rng.Chance(defaultP) {
 			t.Default = num(g.rng.Range(6, 19))
+			if g.rng.Chance(0.25) && t.Lo == nil && t.Hi == nil {
+				t.Default = num(0)
+			}
 			g.tag("default:int")
 		}
 	case r < 82:
